@@ -329,6 +329,17 @@ def gen_auth(rng, n_records, sweep_stride=1, kts=KT_ALL):
             for tw in ["highs", "zero_r", "zero_s", "r_n", "s_n"]:
                 tam.append((tw, recspec(rec, sig={"tweak": tw})))
         tam.append(("random_sig", recspec(rec, sig={"raw": rand_bytes(rng, 64)})))
+        # signatures that HAVE a zero byte at the start of r / of s / at the end (found by counting a filler pair up
+        # until the genuine signature has it): valid as they are; with that byte dropped, or with a zero byte added
+        # in front or behind, they are 63 / 65 bytes and not signatures
+        if r % 2 == 0 and rec_len(rec["seq"], rec["pairs"]) < 285:
+            for pos in (0, 32, 63):
+                g = {"seq": rec["seq"], "pairs": rec["pairs"], "grind": {"pos": pos, "byte": 0}}
+                steps.append({"op": "decode", "kts": kts, "input": {"rec": dict(g, sig={"by": rec["by"]})}, "tag": "valid"})
+                tam.append(("sig_zero_byte_dropped_%d" % pos, {"rec": dict(g, sig={"by": rec["by"], "drop": pos})}))
+                tam.append(("sig_zero_byte_dropped_repadded_%d" % pos, {"rec": dict(g, sig={"by": rec["by"], "drop": pos, "rpad" if pos == 0 else "lpad": 1})}))
+            tam.append(("sig_left_padded", recspec(rec, sig={"lpad": 1})))
+            tam.append(("sig_right_padded", recspec(rec, sig={"rpad": 1})))
         if rec["seq"] == []:
             it0 = items_of(rec)
             tam.append(("seq_zero_written_as_00", {"rec": {"items": [{"x": [0]}] + it0[1:], "sig": {"by": rec["by"], "over": it0}}}))
